@@ -1,8 +1,77 @@
 import FtDriver.Json
+import FtDriver.C01
 open Lean (Json)
 namespace FtDriver
 open Ft
 
-def handleC02 (_j : Json) : Except String Verdict := throw "C02: not implemented"
+/-- rank lists as reported by the harness: each registered fiber by its path, `null` if the fiber
+    is not part of the tree any more (stale) -/
+def parseRanks (j : Json) : Except String (List (List (Option (List Int)))) := do
+  (← asList j).mapM (fun r => do
+    (← asList r).mapM (fun p => if p.isNull then pure none else do pure (some (← asInts p))))
+
+def ranksNoStale (R : List (List (Option (List Int)))) : Bool := R.all (fun r => r.all (·.isSome))
+def ranksPaths (R : List (List (Option (List Int)))) : RankLists Int := R.map (fun r => r.filterMap id)
+
+def sameRanks (A B : RankLists Int) : Bool :=
+  A.length == B.length && (A.zip B).all (fun p => p.1.isPerm p.2)
+
+def mirrorWhy (D : Nat) (t : T D) (R : List (List (Option (List Int)))) : String :=
+  if !ranksNoStale R then "a rank lists a fiber that is no longer in the tree"
+  else if (ranksPaths R).length != D then "number of ranks differs from the depth of the tree"
+  else
+    match (List.range D).find? (fun i => !((ranksPaths R).getD i []).isPerm (pathsAt D t i)) with
+    | some i => s!"rank {i} does not list exactly the fibers found at depth {i}"
+    | none => ""
+
+def handleC02 (j : Json) : Except String Verdict := do
+  let D ← fNat j "d"
+  let dflt := fIntD j "dflt" 0
+  match (← fStr j "op") with
+  | "ctor" =>
+    let impl ← field j "impl"
+    let t ← fTree impl "t" D
+    let R ← parseRanks (← field impl "ranks")
+    let why := mirrorWhy D t R
+    let agree := sameRanks (regAll D t) (ranksPaths R) && ranksNoStale R
+    pure { agree, spec := why.isEmpty, why, tags := [fStrD j "ctor" "?"] }
+  | "history" =>
+    match D with
+    | 0 => return { agree := true, spec := true, tags := ["OUT_OF_MODEL"] }
+    | d + 1 =>
+      let steps ← fArr j "impl"
+      let mut okAgree := true
+      let mut okSpec := true
+      let mut why := ""
+      let mut tags : List String := []
+      for st in steps do
+        let opJ ← field st "op"
+        let k ← fStr opJ "k"
+        if !tags.contains k then tags := k :: tags
+        let after ← parseTree (d + 1) (← field st "after")
+        let Ra ← parseRanks (← field st "ranks_after")
+        let w := mirrorWhy (d + 1) after Ra
+        if !w.isEmpty then
+          okSpec := false
+          if why.isEmpty then why := s!"{k}: {w}"
+        -- correspondence for the modelled bookkeeping operations
+        match parseTree (d + 1) (← field st "before"), parseRanks (← field st "ranks_before") with
+        | .ok tb, .ok Rb =>
+          if wfB (d + 1) tb && mirrorB (d + 1) tb (ranksPaths Rb) && ranksNoStale Rb then
+            let at_ := match opJ.getObjVal? "at" with | .ok a => (asInts a).toOption.getD [] | _ => []
+            let model : Option (T (d + 1) × RankLists Int) ← (match k with
+              | "ref" => do pure (some (refStepR dflt (d + 1) tb (ranksPaths Rb) (← asInts (← field opJ "p"))))
+              | "posref" => do pure (some (refStepR dflt (d + 1) tb (ranksPaths Rb) (at_ ++ [← fInt opJ "c"])))
+              | "clear" => pure (some (clearStepR d tb (ranksPaths Rb) at_))
+              | _ => pure none)
+            match model with
+            | some (mt, mR) =>
+              if !(treeEq (d + 1) mt after) || !(sameRanks mR (ranksPaths Ra)) then
+                okAgree := false
+                if why.isEmpty then why := s!"{k}: tree or rank lists after the step differ from the model"
+            | none => if !tags.contains "bookkeeping-unmodelled" then tags := "bookkeeping-unmodelled" :: tags
+        | _, _ => pure ()
+      pure { agree := okAgree, spec := okSpec, tags, why }
+  | o => throw s!"C02: unknown op {o}"
 
 end FtDriver
